@@ -1,10 +1,10 @@
 package main
 
 import (
-	"strings"
-	"runtime/debug"
 	"encoding/hex"
+	"runtime/debug"
 	"strconv"
+	"strings"
 )
 
 func hexTok(b []byte) string {
